@@ -185,6 +185,11 @@ func codecGlobals() string {
 }
 
 func (s *Sim) judgeHistoricalNode(path, addr string, h int64, hv *View, got nodesTypes.Validator, found bool) {
+	if s.restartedSinceBlock {
+		// between a restart and the first block the check state has no header yet; what the custom
+		// query route decodes in that window is reported under its own identity
+		path += "/after-restart-before-first-block"
+	}
 	want, exists := hv.Validators[addr]
 	s.res.Probe("historical_answer_checked")
 	if h < s.drv.Height {
@@ -194,11 +199,14 @@ func (s *Sim) judgeHistoricalNode(path, addr string, h int64, hv *View, got node
 	case found != exists:
 		s.violate("C09", "historical-answer", path, fmt.Sprintf("tip %d: node %s at height %d: found=%v, block %d committed a record: %v", s.drv.Height, addr, h, found, h, exists))
 	case found && (!got.StakedTokens.Equal(want.StakedTokens) || got.Status != want.Status || got.Jailed != want.Jailed || fmt.Sprint(got.Chains) != fmt.Sprint(want.Chains) || got.ServiceURL != want.ServiceURL || !got.OutputAddress.Equals(want.OutputAddress)):
-		s.violate("C09", "historical-answer", path, fmt.Sprintf("tip %d: node %s at height %d answered stake %s status %d jailed %v chains %v, block %d committed stake %s status %d jailed %v chains %v", s.drv.Height, addr, h, got.StakedTokens, got.Status, got.Jailed, got.Chains, h, want.StakedTokens, want.Status, want.Jailed, want.Chains))
+		s.violate("C09", "historical-answer", path, fmt.Sprintf("tip %d: node %s at height %d answered stake %s status %d jailed %v chains %v url %s output %s, block %d committed stake %s status %d jailed %v chains %v url %s output %s", s.drv.Height, addr, h, got.StakedTokens, got.Status, got.Jailed, got.Chains, got.ServiceURL, got.OutputAddress, h, want.StakedTokens, want.Status, want.Jailed, want.Chains, want.ServiceURL, want.OutputAddress))
 	}
 }
 
 func (s *Sim) judgeHistoricalApp(path, addr string, h int64, hv *View, got appsTypes.Application, found bool) {
+	if s.restartedSinceBlock {
+		path += "/after-restart-before-first-block"
+	}
 	want, exists := hv.Apps[addr]
 	s.res.Probe("historical_answer_checked")
 	if h < s.drv.Height {
